@@ -44,6 +44,12 @@ T = {
     "C09": (True, "exploration", "differential monitor: every scan row vs an independent simulation of a fresh copy; schedule perturbation through the public worker= parameter (delays, pid/timing log), emulated core counts, injected failing rows through the public integrator= parameter",
             "All nine scan / Monte-Carlo entry points, tables mixing parameters and initial values with non-default labels, rows that fail, sequential and parallel execution on 1/2/3/5/16 emulated cores with per-row delays; views are read only after the scan and again after mutating the caller's model. Evidence lists worker pids, completion orders and calls logged.",
             "Trusted: the independent per-row Simulator run; failures are injected by an integrator wrapper that fails when the row sets kz=0."),
+    "C18": (True, "exploration", "analytic oracle on power-law networks (kinetic orders, closed-form steady-state sensitivities) + exact before/after snapshot of the caller's model + sequential vs parallel comparison",
+            "Variable/parameter elasticities (normalized or not, subsets, given/default state), response coefficients sequentially and with 1/2/16 workers, and the mc.* wrappers on parameter draws; the caller's raw parameters, raw variables, parameter values and initial conditions are compared exactly before and after every routine.",
+            "Trusted: closed forms in checks/c18_mca.py; tolerance 1e-6 (elasticities), 2e-2 (response coefficients, steady-state solver error amplified by 1/2e-4)."),
+    "C19": (True, "fault_enumeration", "fault injection: sys.monitoring LINE failpoints (os._exit at the j-th execution of every line of _load_or_run / save function) and RLIMIT_FSIZE+SIGXFSZ byte kills at every file size, in forked children; rerun and third run compared with the cache-free oracle and a call log",
+            "Every executable line x key index and (thorough) every byte size of the small payload are enumerated, sequential and inside pebble workers, for tuple, dict and real Simulation payloads; after each crash the directory is listed, a rerun must complete with correct results and a third run must not recompute.",
+            "Crash instants are Python line boundaries and file byte sizes; page-cache loss not modelled. Oracle = cache-free run."),
 }
 PENDING_REASON = "check not built yet in this session (work in progress; design in DESIGN.md section 4)"
 
